@@ -39,6 +39,7 @@ type monitor struct {
 	rollupOn   bool
 	famDir     string
 	ledger     *rollupLedger // the engine's own account of (table, interval) rollups that have not completed (nil: none)
+	phase      string        // non-empty: appended to the classes of the unmap monitor (names the schedule family)
 }
 
 func (m *monitor) tick() int64 { return atomic.AddInt64(&m.clock, 1) }
@@ -126,7 +127,11 @@ func (m *monitor) beforeUnmap(path string) {
 	}
 	m.mu.Unlock()
 	if held > 0 {
-		m.violate("C02/table-unmapped-while-reader-outstanding", "table %s is being unmapped while %d readers obtained from still-open snapshots are outstanding", name, held)
+		class := "C02/table-unmapped-while-reader-outstanding"
+		if m.phase != "" {
+			class += "/" + m.phase
+		}
+		m.violate(class, "table %s is being unmapped while %d readers obtained from still-open snapshots are outstanding", name, held)
 	}
 }
 
@@ -165,6 +170,10 @@ func runChild() {
 	idx, _ := strconv.Atoi(os.Args[2])
 	dir := os.Args[3]
 	seed, _ := strconv.ParseInt(os.Getenv("VERIF_SEED"), 10, 64)
+	if idx >= faultBase {
+		runDirectedMapFault(idx-faultBase, dir, seed)
+		return
+	}
 	if idx >= rollupBase {
 		runDirectedRollup(idx-rollupBase, dir, seed)
 		return
